@@ -396,7 +396,7 @@ class PartitionedArray(object):
         return list(ak._util.find_caches(self))
 
     def tojson(self, *args, **kwargs):
-        return self._ext.tojson(*args, **kwargs)
+        return self.toContent().tojson(*args, **kwargs)
 
     @property
     def nbytes(self):
